@@ -55,6 +55,10 @@ def concretise(beh):
             out.append(r'\begin{equation}x=%d\end{equation}' % k)
         elif kind == 'eqnarray':
             out.append(r'\begin{eqnarray}a&=&b%s\\ c&=&d%s\end{eqnarray}' % (r'\nonumber' if e['a'] else '', r'\nonumber' if e['b'] else ''))
+        elif kind == 'declare':
+            out.append(r'\newcounter{ucl}[section]')
+        elif kind == 'ucl':
+            out.append(r'\stepcounter{ucl}\emph{UL\arabic{ucl};}')
         elif kind == 'uc':
             out.append(r'\stepcounter{ucw}\emph{UC\arabic{ucw};}')
         elif kind == 'fig':
@@ -126,9 +130,9 @@ def project(doc):
         elif name == 'thmenv':
             out.append(('thm', txt(node.ref)))
         elif name == 'emph':
-            m = re.search(r'UC(\d+);', str(node.textContent))
+            m = re.search(r'U([CL])(\d+);', str(node.textContent))
             if m:
-                out.append(('uc', m.group(1)))
+                out.append(('uc' if m.group(1) == 'C' else 'ucl', m.group(2)))
         elif name == 'item':
             out.append(('item', str(node.position)))
         # arguments (titles) hold no numbered objects in generated documents
